@@ -25,6 +25,34 @@ func checkBigEndian8(c *Check, w *World, tb *TB, rule string, f *ssa.Function, v
 			}
 		}
 	})
+	if len(stores) == 0 {
+		// the library idiom: binary.BigEndian.PutUint64(buf, v) on an 8-byte buffer that is returned
+		var puts []ssa.CallInstruction
+		EachInstr(f, func(in ssa.Instruction) {
+			if ci, ok := in.(ssa.CallInstruction); ok && strings.Contains(CalleeName(ci.Common()), "encoding/binary.") && strings.HasSuffix(CalleeName(ci.Common()), "PutUint64") {
+				puts = append(puts, ci)
+			}
+		})
+		if len(puts) == 1 {
+			n := CalleeName(puts[0].Common())
+			args := puts[0].Common().Args
+			bufT, vT := tb.Of(args[len(args)-2]), tb.Of(args[len(args)-1])
+			okBuf := (bufT.Op == "slice" && bufT.Args[0].Op == "alloc" && bufT.Args[2].IsConst() && bufT.Args[2].Sym == "8" && bufT.Args[1].Op == "none") || (bufT.Op == "makeslice" && bufT.Args[0].IsConst() && bufT.Args[0].Sym == "8")
+			res := tb.Results(f, nil, nil, 0)
+			okRes := false
+			for _, a := range res[0].Alts() {
+				if a.String() == bufT.String() {
+					okRes = true
+				}
+			}
+			ok := n == "(encoding/binary.bigEndian).PutUint64" && okBuf && vMatch(vT) && okRes
+			c.Decide(ok, rule, fn, "big-endian-8", "binary.BigEndian.PutUint64 of "+vDesc+" into the returned 8-byte buffer", "the 8-byte encoding is "+n+" of "+clip(vT.String(), 120)+" (buffer ok: "+fmt.Sprint(okBuf)+", returned: "+fmt.Sprint(okRes)+"), not big-endian of "+vDesc, pos)
+			if ok {
+				return "big-endian-8(V)"
+			}
+			return "other:" + n
+		}
+	}
 	if len(stores) != 1 {
 		c.Unk(rule, fn, "byte-sweep", fmt.Sprintf("%d byte stores, expected the single store of the sweep loop", len(stores)), pos)
 		return ""
@@ -109,7 +137,10 @@ func checkBigEndian8(c *Check, w *World, tb *TB, rule string, f *ssa.Function, v
 		why = "the function does not return the buffer it filled"
 	}
 	c.Decide(why == "", rule, fn, "big-endian-8", "8-byte buffer filled from index 7 down to 0 with the low byte of "+vDesc+", shifting right by 8: big-endian", why, pos)
-	// normalised loop signature for the sibling comparison
+	// semantic class for the sibling comparison
+	if why == "" {
+		return "big-endian-8(V)"
+	}
 	return fmt.Sprintf("buf8=%v val=%s idx=%v", okBuf, normT(vt), okIdx)
 }
 
